@@ -263,7 +263,7 @@ pub fn supervise(a: &HashMap<String, String>) -> i32 {
     let out_path = a.get("out").cloned().unwrap_or_else(|| format!("{}/evidence/.part-{}-{}.json", crate::home(), prop, flavour));
     let replay_dir = a.get("replay-dir").cloned().unwrap_or_else(|| format!("{}/replays", crate::home()));
     let known_path = a.get("known").cloned().unwrap_or_else(|| format!("{}/known_findings.json", crate::home()));
-    let hang_s: u64 = a.get("hang-s").and_then(|s| s.parse().ok()).unwrap_or(300);
+    let hang_s: u64 = a.get("hang-s").and_then(|s| s.parse().ok()).unwrap_or(90);
     let deadline_s: Option<u64> = a.get("deadline-s").and_then(|s| s.parse().ok());
     let me = std::env::current_exe().unwrap().to_string_lossy().to_string();
     // C13 runs the same workload through several feature-set builds of the simulator
@@ -298,6 +298,9 @@ pub fn supervise(a: &HashMap<String, String>) -> i32 {
     let mut last_progress: Vec<Instant> = vec![Instant::now(); nworkers];
     let mut fault_line: Vec<Option<String>> = vec![None; nworkers];
     let mut got_stats: Vec<bool> = vec![false; nworkers];
+    // runs during which a worker stopped making progress (killed): judged afterwards with free-running threads
+    let mut stalled: Vec<(String, u64)> = Vec::new();
+    let mut hang_killed: Vec<bool> = vec![false; nworkers];
     let mut alive = nworkers;
     let mut lines: HashMap<(String, u64), RunLine> = HashMap::new();
     let mut totals: BTreeMap<String, u64> = BTreeMap::new();
@@ -325,7 +328,28 @@ pub fn supervise(a: &HashMap<String, String>) -> i32 {
             Ok(Msg::Exit(w, _, tail)) => {
                 let status = children[w].as_mut().and_then(|c| c.wait().ok());
                 let ok = status.map(|s| s.success()).unwrap_or(false) && got_stats[w];
-                if !ok {
+                if !ok && hang_killed[w] {
+                    // killed by the stall detector below: the run is judged afterwards; carry on with the next index
+                    hang_killed[w] = false;
+                    let idx = current[w].unwrap_or(u64::MAX);
+                    restarts += 1;
+                    if stalled.len() <= 16 && restarts <= 64 && idx != u64::MAX {
+                        let next = idx + per_bin as u64;
+                        if next < runs {
+                            let mut s2 = WorkerSpec { bin: specs[w].bin.clone(), label: specs[w].label.clone(), args: specs[w].args.clone() };
+                            for i in 0..s2.args.len() {
+                                if s2.args[i] == "--start" {
+                                    s2.args[i + 1] = next.to_string();
+                                }
+                            }
+                            fault_line[w] = None;
+                            current[w] = None;
+                            last_progress[w] = Instant::now();
+                            children[w] = Some(spawn_worker(w, &s2, tx.clone(), &format!("{}/w{}.err", tmp, w)));
+                            continue;
+                        }
+                    }
+                } else if !ok {
                     // crash of a worker process: attribute to the run it announced last
                     let idx = current[w].unwrap_or(u64::MAX);
                     let errtext = std::fs::read_to_string(format!("{}/w{}.err", tmp, w)).unwrap_or_default();
@@ -371,12 +395,47 @@ pub fn supervise(a: &HashMap<String, String>) -> i32 {
                     if let Ok(None) = ch.try_wait() {
                         let _ = ch.kill();
                         let idx = current[w].unwrap_or(u64::MAX);
-                        viols.push((specs[w].label.clone(), ViolLine { idx, v: Violation { class: "liveness.hang".into(), detail: format!("run {} made no progress for {} s of wall clock without reaching a scheduling point; worker killed", idx, hang_s), thread: -1, op: -1 } }));
+                        hang_killed[w] = true;
+                        if idx != u64::MAX {
+                            stalled.push((specs[w].label.clone(), idx));
+                        }
                         last_progress[w] = Instant::now();
                     }
                 }
             }
         }
+    }
+
+    // stalled runs: a cooperative scheduler stalls when the code under test blocks on a primitive it does not own (a real
+    // mutex held across a scheduling point) although real threads would merely wait. Such a run is executed again with
+    // free-running OS threads: if it completes there it is judged by the usual oracles (and reported as a fallback in the
+    // evidence); if it does not complete there either, the hang is genuine.
+    let mut free_run_idx: HashSet<u64> = HashSet::new();
+    stalled.sort();
+    stalled.dedup();
+    for (label, idx) in stalled.iter().take(8) {
+        let bin = bins.iter().find(|(l, _)| l == label).map(|(_, b)| b.clone()).unwrap_or_else(|| me.clone());
+        let mut case = props::gen_case(&prop, tier, seed, *idx, false);
+        case.free_run = true;
+        *totals.entry("fallback.free-run-cases".to_string()).or_insert(0) += 1;
+        match minimise::run_child(&bin, &case, &tmp, hang_s) {
+            minimise::ChildRes::Timeout => {
+                viols.push((label.clone(), ViolLine { idx: *idx, v: Violation { class: "liveness.hang".into(), detail: format!("run {} made no progress for {} s under the simulator's scheduler and does not complete within {} s with free-running threads either: a call does not terminate", idx, hang_s, hang_s), thread: -1, op: -1 } }));
+            }
+            minimise::ChildRes::Out(o) => {
+                free_run_idx.insert(*idx);
+                for v in o.violations {
+                    viols.push((label.clone(), ViolLine { idx: *idx, v: Violation { detail: format!("[free-running fallback: the simulated schedule stalled on a lock inside the code under test] {}", v.detail), ..v } }));
+                }
+            }
+            minimise::ChildRes::Crash(c, d) => {
+                free_run_idx.insert(*idx);
+                viols.push((label.clone(), ViolLine { idx: *idx, v: Violation { class: c, detail: d, thread: -1, op: -1 } }));
+            }
+        }
+    }
+    if stalled.len() > 8 {
+        *totals.entry("fallback.stalled-not-rerun".to_string()).or_insert(0) += stalled.len() as u64 - 8;
     }
 
     // determinism pairs: re-run a sample in fresh processes at a different worker count and compare event-log hashes
@@ -466,6 +525,7 @@ pub fn supervise(a: &HashMap<String, String>) -> i32 {
         seen_classes.insert(class.clone());
         let bin = bins.iter().find(|(l, _)| l == label).map(|(_, b)| b.clone()).unwrap_or_else(|| me.clone());
         let mut case = props::gen_case(&prop, tier, seed, vl.idx, false);
+        case.free_run = free_run_idx.contains(&vl.idx);
         // NB: PCT calibration happens in the child (exec-case) path through `prepare` only for generated cases;
         // the replay pins the policy explicitly instead
         let path = format!("{}/{}-{}-seed{}-run{}-{}.json", replay_dir, prop, label, seed, vl.idx, class.replace('.', "_"));
